@@ -11,6 +11,14 @@
  *                          row 1, 2 double size in row 1, 3 double width in row 1, 4 double height in rows 5 10 15 20,
  *                          5 occurrences at row 1+5i column 3i (the first one in the very first cell searched)
  *   E                      end behaviour (decoder deleted)
+ * pattern space layer (rows and patterns given byte by byte, one cache serves many searches):
+ *   G <pgno> <subno>       begin the transmission of a page (header with erase flag; rows not sent stay blank)
+ *   W <row> <80 hex digits> one row of the page: 40 seven-bit codes incl. spacing attributes
+ *   F                      end of the page (time filling header of its magazine)
+ *   I <id>                 id printed with the following results
+ *   M <pgno> <subno> <casefold> <regexp> <4 hex digits per pattern character>   vbi_search_new
+ *   L <dir> <max>          vbi_search_next until it does not report SUCCESS, at most <max> calls
+ *   D                      marker: the commands of the current id are done (the process is still alive)
  */
 #include <stdio.h>
 #include <stdlib.h>
@@ -78,9 +86,38 @@ static void send_page(int pgno, int subno, int occ, const char *custom)
 	ttx_send_filler(&tx, mag);
 }
 
+static int hexv(int c) { return c >= 'a' ? c - 'a' + 10 : c >= 'A' ? c - 'A' + 10 : c - '0'; }
+
+/* one vbi_search_next call under the watchdog; prints status, page and highlighted cells; returns the status */
+static int search_next(int dir)
+{
+	int r, row, col;
+	vbi_page *pg = NULL;
+	watchdog(4);
+	r = vbi_search_next(srch, &pg, dir);
+	watchdog(0);
+	printf("{\"id\":\"%s\",\"r\":%d", cur_id, r);
+	if (pg) {
+		int first = 1;
+		printf(",\"pg\":%d,\"sub\":%d,\"hl\":[", pg->pgno, pg->subno);
+		for (row = 0; row < pg->rows; row++)
+			for (col = 0; col < pg->columns; col++) {
+				vbi_char *ac = &pg->text[row * pg->columns + col];
+				if (ac->foreground == 32 + VBI_BLACK && ac->background == 32 + VBI_YELLOW) {
+					printf("%s[%d,%d]", first ? "" : ",", row, col);
+					first = 0;
+				}
+			}
+		printf("]");
+	}
+	printf("}\n");
+	return r;
+}
+
 int main(void)
 {
 	char line[512];
+	int cur_mag = 1;
 	signal(SIGPROF, on_alarm);
 	setvbuf(stdout, NULL, _IOLBF, 0);
 	while (fgets(line, sizeof line, stdin)) {
@@ -112,26 +149,49 @@ int main(void)
 			srch = vbi_search_new(vbi, pgno, subno, upat, casefold, regexp, NULL);
 			printf("{\"id\":\"%s\",\"new\":%d}\n", cur_id, srch != NULL);
 		} else if (c == 'S') {
-			int dir = atoi(line + 1), r, row, col;
-			vbi_page *pg = NULL;
-			watchdog(4);
-			r = vbi_search_next(srch, &pg, dir);
-			watchdog(0);
-			printf("{\"id\":\"%s\",\"r\":%d", cur_id, r);
-			if (pg) {
-				printf(",\"pg\":%d,\"sub\":%d,\"hl\":[", pg->pgno, pg->subno);
-				int first = 1;
-				for (row = 0; row < pg->rows; row++)
-					for (col = 0; col < pg->columns; col++) {
-						vbi_char *ac = &pg->text[row * pg->columns + col];
-						if (ac->foreground == 32 + VBI_BLACK && ac->background == 32 + VBI_YELLOW) {
-							printf("%s[%d,%d]", first ? "" : ",", row, col);
-							first = 0;
-						}
-					}
-				printf("]");
+			search_next(atoi(line + 1));
+		} else if (c == 'G') {
+			int pgno, subno;
+			sscanf(line + 1, "%x %x", &pgno, &subno);
+			cur_mag = (pgno >> 8) & 7;
+			if (!cur_mag) cur_mag = 8;
+			ttx_send_header(&tx, pgno, subno, TX_C4_ERASE, 0);
+		} else if (c == 'W') {
+			int row, off = 0, i;
+			uint8_t codes[40], pkt[42];
+			sscanf(line + 1, "%d %n", &row, &off);
+			const char *h = line + 1 + off;
+			for (i = 0; i < 40; i++) {
+				if (h[0] > ' ' && h[1] > ' ') {
+					codes[i] = hexv(h[0]) * 16 + hexv(h[1]);
+					h += 2;
+				} else
+					codes[i] = 0x20;     /* short line: blank */
 			}
-			printf("}\n");
+			ttx_mk_row(pkt, cur_mag, row, codes);
+			ttx_tx_send(&tx, pkt);
+		} else if (c == 'F') {
+			ttx_send_filler(&tx, cur_mag);
+		} else if (c == 'D') {
+			printf("{\"id\":\"%s\",\"done\":true}\n", cur_id);
+		} else if (c == 'I') {
+			sscanf(line + 1, "%63s", cur_id);
+		} else if (c == 'M') {
+			int pgno, subno, casefold = 0, regexp = 0, off = 0, n = 0;
+			uint16_t upat[128];
+			const char *h;
+			sscanf(line + 1, "%x %x %d %d %n", &pgno, &subno, &casefold, &regexp, &off);
+			for (h = line + 1 + off; n < 127 && h[0] > ' ' && h[1] > ' ' && h[2] > ' ' && h[3] > ' '; h += 4)
+				upat[n++] = hexv(h[0]) << 12 | hexv(h[1]) << 8 | hexv(h[2]) << 4 | hexv(h[3]);
+			upat[n] = 0;
+			if (srch) vbi_search_delete(srch);
+			srch = vbi_search_new(vbi, pgno, subno, upat, casefold, regexp, NULL);
+			printf("{\"id\":\"%s\",\"new\":%d}\n", cur_id, srch != NULL);
+		} else if (c == 'L') {
+			int dir = 0, max = 0;
+			sscanf(line + 1, "%d %d", &dir, &max);
+			while (srch && max-- > 0 && search_next(dir) == VBI_SEARCH_SUCCESS)
+				;
 		} else if (c == 'E') {
 			if (srch) vbi_search_delete(srch);
 			srch = NULL;
